@@ -272,7 +272,7 @@ def alphabet_for(kind, size=None):
         a = seq.Alphabet(list(_CHARS[:size]))
     elif kind == "gen_int":
         a = seq.Alphabet(list(range(size)))
-    elif kind == "gen_wide":
+    elif kind in ("gen_wide", "gen_huge"):
         a = seq.Alphabet(list(range(size)))
     else:
         raise KeyError(kind)
@@ -309,6 +309,10 @@ def rand_codes(rng, kind, size, length):
     if kind == "gen_wide":
         # codes on both sides of the uint8 boundary
         pool = np.array([0, 1, 2, 254, 255, 256, 257, n - 1])
+        return pool[rng.integers(0, len(pool), length)]
+    if kind == "gen_huge":
+        # codes on both sides of the int16 / uint16 boundaries
+        pool = np.array([0, 1, 255, 256, 32767, 32768, 32769, 65535, 65536, n - 1])
         return pool[rng.integers(0, len(pool), length)]
     if rng.random() < 0.3:
         n = min(n, 3)        # few distinct symbols: many matches
@@ -395,6 +399,10 @@ def gen_pair_trace(rng, ctx):
             op = "M" if op != "M" else str(rng.choice(["I", "D"]))
         ops.append((op, int(rng.integers(1, 5))))
         last = op
+    if rng.random() < 0.05:
+        # one run of 255 or more equal operations (run lengths beyond 8 bits)
+        k_ = int(rng.integers(len(ops)))
+        ops[k_] = (ops[k_][0], int(rng.choice([255, 256, 257, 300, 700])))
     if not any(o == "M" for o, _ in ops):
         # both sequences need an aligned symbol
         ops.insert(int(rng.integers(0, len(ops) + 1)), ("M", int(rng.integers(1, 4))))
@@ -415,7 +423,7 @@ def gen_pair_trace(rng, ctx):
     return rows, r + r_tail, s + s_tail
 
 
-def build_alignment(ctx, rng, kinds=None, nmin=2, nmax=6, same_alphabet=False, pair=False):
+def build_alignment(ctx, rng, kinds=None, nmin=2, nmax=6, same_alphabet=False, pair=False, huge_ok=False):
     """Generate sequences + trace, log them, return (alignment, rows, seqs, meta)."""
     if pair:
         rows, lr, ls = gen_pair_trace(rng, ctx)
@@ -427,6 +435,9 @@ def build_alignment(ctx, rng, kinds=None, nmin=2, nmax=6, same_alphabet=False, p
         rows, feats = gen_trace(rng, lens)
     n = len(lens)
     kind, size = pick_kind(rng, kinds)
+    if huge_ok and rng.random() < 0.05:
+        kind, size, same_alphabet = "gen_huge", 70000, True      # codes beyond 16 bits
+        ctx.op("alphabet_beyond_16_bit_codes")
     kinds_used = []
     seqs = []
     for i in range(n):
@@ -779,7 +790,7 @@ def check_fasta(ctx, rng, ali, rows, seqs, classes, exp_gapped, ren):
 
 
 def case_conv(rng, ctx):
-    ali, rows, seqs, meta = build_alignment(ctx, rng)
+    ali, rows, seqs, meta = build_alignment(ctx, rng, huge_ok=True)
     check_valid(ctx, ali, "driver-built alignment (generator audit)")
     check_conversions(ctx, rng, ali, rows, seqs)
     # an alignment owns its list of sequences: neither the list passed by the caller nor the list of an
